@@ -197,6 +197,13 @@ impl<'a> GeneratorState<'a> {
                                         .syntax_error("Can't call an interrupt routine", pos));
                                 }
                                 if f.inline {
+                                    if self.current_function.as_deref() == Some(var.as_str()) {
+                                        // Its body is still being generated
+                                        return Err(self.compiler_state.syntax_error(
+                                            "An inline function can't call itself",
+                                            pos,
+                                        ));
+                                    }
                                     if f.code.is_some() {
                                         self.push_code(var, pos)?;
                                     } else {
